@@ -121,6 +121,12 @@ def inject(rng, cls, ds, cfg, defect):
         if cand and rng.random() < 0.7:
             pos = rng.choice(cand)
         X = ds["X"].copy(); X[f] = X[f].astype(object); X.iloc[pos, X.columns.get_loc(f)] = "oops"
+        # the same strings in a column of another dtype than object: categorical, or pandas' string dtype (every cell a string)
+        k = rng.random()
+        if k < 0.25:
+            X[f] = X[f].astype("category")
+        elif k < 0.4:
+            X[f] = X[f].astype("string")
         return lambda obj: fit(obj, ds, X=X)
     if defect == "not_in_ranking":
         if not ds["ordinal"] or cls == "QuantitativeDiscretizer":
